@@ -458,7 +458,7 @@ pub fn crossargs_family(cfg: &Cfg, rep: &mut Report, model: &mut Model) {
   // the recursive cases run first in a child of the harness: a wrong argument value can make a recursion endless
   // (stack overflow aborts the process); only the cases the child came through are evaluated in this process
   let tier = if thorough { "thorough" } else { "quick" };
-  let (end, out) = crate::util::child(&["c01", "crossargs-rec", &cfg.seed.to_string(), tier], "", 120_000);
+  let (end, out) = crate::util::child(&["c01", "crossargs-rec", &cfg.seed.to_string(), tier], "", if thorough { 3_600_000 } else { 600_000 });
   let reached: Vec<&str> = out.lines().collect();
   let complete = end == "ok" && reached.last() == Some(&"done");
   let safe = if complete { usize::MAX } else { reached.iter().filter(|l| l.starts_with("case ")).count().saturating_sub(1) };
